@@ -276,6 +276,13 @@ namespace Driver
 
 open AGV
 
+/-- matched flag + user-visible bindings (the `secondary` label is internal) -/
+def projected (matched : Bool) (env : Env) : Json :=
+  let multi := env.multi.filter fun (k, _) => k != secondaryLabel
+  Json.mkObj [("matched", Json.bool matched),
+    ("s", Json.mkObj (env.single.map fun (k, t) => (String.ofList k, jNat t.id))),
+    ("m", Json.mkObj (multi.map fun (k, ts) => (String.ofList k, Json.arr (ts.map fun t => jNat t.id).toArray)))]
+
 /-- C04 oracle: the implementation's result (matched node and bindings) on every node equals the
 model's result for the rule with every sub-rule isolated (`Spec.isolate`) -/
 def opOracleIsolate : SHandler := fun st a => do
@@ -294,8 +301,8 @@ def opOracleIsolate : SHandler := fun st a => do
     | none => Json.str "unknown-node"
     | some n =>
       match matchCore ctx fuel (Spec.isolateCore core) n Env.empty with
-      | .ok (some m, env) => Json.mkObj [("m", jNat m.id), ("env", envJson env)]
-      | .ok (none, _) => Json.mkObj [("m", Json.null), ("env", envJson Env.empty)]
+      | .ok (some _, env) => projected true env
+      | .ok (none, _) => projected false Env.empty
       | .error e => abnJson e
   pure (st, Json.arr results.toArray)
 
